@@ -7,10 +7,25 @@ children (exit status 0..255 or a signal from HUP/INT/KILL/TERM/USR1/PIPE; API `
 ``wait_for_exit(raise_error=T/F)``) plus a *program*: a generated permutation of the operations
 ``register(i)`` and ``release(i)`` with 0-2 event-loop iterations after each.  ``release`` closes the
 child's stdin (or sends the signal) and then blocks in ``os.waitid(P_PID, pid, WEXITED | WNOWAIT)``, which
-returns — without sleeping and without reaping — exactly when the child is dead.  So "exit before
-registration" (release < register), "exit after registration", several children released back to back
-(one coalesced SIGCHLD) and registrations while other zombies are pending are all reached
-deterministically; the loop only runs where the program says so.
+returns — without sleeping and without reaping — exactly when the child is dead (the wait itself is a
+``select`` on a pidfd capped at 15 s; the cap is a harness error, exit 2).  So "exit before registration"
+(release < register), "exit after registration", several children released back to back and
+registrations while other zombies are pending are all reached deterministically; the loop only runs
+where the program says so.
+
+Real SIGCHLD coalescing (case flag ``coalesce``): releasing children back to back does *not* coalesce —
+each death still delivers its own SIGCHLD while the harness waits.  So in these cases SIGCHLD is
+*blocked* in the main thread (``pthread_sigmask``) after the children are spawned; every death then
+only sets the one pending bit, and unblocking after the program delivers exactly ONE SIGCHLD for all
+registered children that died meanwhile.  The "everything dead was reported" clause is evaluated right
+after that, before any other SIGCHLD source (the probe child is started only afterwards).  The mask is
+restored in ``finally``.
+
+Inherited dispositions: started from a background job or under ``nohup`` the check inherits SIGINT/
+SIGQUIT/SIGHUP as *ignored*, which exec passes on to the shell children — they would survive the
+signal the case sends and the harness would wait for their death forever.  For the duration of a case
+every inherited SIG_IGN among the signals used is replaced by a no-op handler (reset to default by
+exec) and restored afterwards.
 
 Oracle.  The expected status comes from the kernel through a different interface than Tornado's:
 ``waitid``'s ``si_code``/``si_status`` (exited -> status, killed/dumped -> minus the signal number); if it
@@ -21,7 +36,7 @@ status as result, or ``CalledProcessError(returncode=status)`` iff status != 0 a
 ``Subprocess.returncode`` (and the wrapped ``Popen.returncode``) agree.  Then an unrelated probe child
 (exit 7) is run through the same machinery: it must be reported correctly and the earlier callbacks
 must not fire again (SIGCHLD bookkeeping drained, "exactly once" across a later SIGCHLD).
-Only if something is still unreported after the 25 iterations the harness also grants one second of
+Only if something is still unreported after the 25 iterations the harness also grants 0.25 s of
 real time before calling it a violation (this can only make the check more lenient); a child that does
 not die is the runner's watchdog's business (exit 2).
 
@@ -36,6 +51,10 @@ Sensitivity (quick tier, seed 1, one mutant at a time on a scratch copy):
   * ``-os.WTERMSIG(status)`` -> ``os.WTERMSIG(status)`` ................... caught (C42.callback_status)
   * ``_try_cleanup_process(self.pid)`` dropped from set_exit_callback .... caught (C42.not_reported)
   * ``_cleanup`` only looks at the first waiting pid (no coalescing) ..... caught (C42.not_reported)
+  * ``_cleanup`` reaps at most ONE exited child per SIGCHLD (``any(cls._try_cleanup_process(pid) for
+    pid in ...)`` short-circuiting, ``_try_cleanup_process`` returning True when it reaped) .... caught
+    (C42.not_reported, by the ``coalesce`` cases — fixed and generated — at seeds 1..3, 10-18 s; the
+    earlier version of this check missed it because every death delivered its own SIGCHLD)
   * ``if ret != 0 and raise_error`` -> ``if ret > 0 and raise_error`` ...... caught (C42.future_should_raise)
   * ``os.WEXITSTATUS(status)`` -> ``status`` ............................... caught (C42.callback_status)
   * DESIGN's "callback not cleared before invocation" is equivalent for every history in the
@@ -43,6 +62,7 @@ Sensitivity (quick tier, seed 1, one mutant at a time on a scratch copy):
 """
 import asyncio
 import os
+import select
 import signal
 import subprocess
 
@@ -59,7 +79,8 @@ RULE = (
     "Hypothesis: 1-4 real /bin/sh children (status 0..255 biased to 0,1,2,126,127,128,255, or signal "
     "HUP/INT/KILL/TERM/USR1/PIPE sent by the child itself or from outside; callback or future API; "
     "raise_error T/F), a permutation of register/release operations with 0-2 loop iterations after each, "
-    "optional probe child afterwards; plus 4 fixed cases covering every listed status and signal; "
+    "optional probe child afterwards, optional SIGCHLD blocking so that all deaths arrive as ONE SIGCHLD; "
+    "plus 6 fixed cases covering every listed status and signal and real coalescing; "
     "non-trivial = >=2 children with different timing classes (exit before vs after registration) or a "
     "signal exit; distinct = SHA-1 of the case"
 )
@@ -69,7 +90,7 @@ ASSUMPTIONS = [
     "the kernel's si_code/si_status are the true exit status (independent of the waitpid status word "
     "Tornado decodes)",
     "25 loop iterations after all children are known dead are enough for a delivered SIGCHLD to be "
-    "dispatched (3-4 are needed); one extra second of real time is granted before a verdict",
+    "dispatched (3-4 are needed); 0.25 s of real time is granted before a verdict",
 ]
 TECHNIQUE = "property-based testing (Hypothesis) with real child processes: generated register/release schedules, kernel waitid() as independent status oracle"
 LEVEL_TEXT = (
@@ -82,7 +103,54 @@ SHARDS = 16
 
 SIGNALS = ["HUP", "INT", "KILL", "TERM", "USR1", "PIPE"]
 SETTLE_ITERS = 25
-GRACE_STEPS = 50  # x 20 ms, only entered when something is still unreported
+GRACE_STEPS = 10  # x 25 ms, only entered when something is still unreported
+DEATH_CAP_S = 15.0  # a released child that is not dead by then is a harness problem (exit 2)
+_RESET = [signal.SIGHUP, signal.SIGINT, signal.SIGQUIT, signal.SIGTERM, signal.SIGUSR1, signal.SIGUSR2]
+
+
+def _noop_handler(signum, frame):
+    pass
+
+
+class default_dispositions_for_children:
+    """A check started from a background job or under nohup inherits SIGINT/SIGQUIT/SIGHUP as *ignored*,
+    and ignored signals stay ignored across exec: the shell children would survive the signal a case
+    sends them.  For the duration of a case replace every inherited SIG_IGN by a no-op *handler* (caught
+    signals are reset to SIG_DFL by exec; for this process the effect is still "ignore") and unblock
+    them; everything is restored on exit.  (Cheaper than preexec_fn, which forces a full fork().)"""
+
+    def __enter__(self):
+        self.saved = {}
+        for sig in _RESET:
+            if signal.getsignal(sig) == signal.SIG_IGN:
+                self.saved[sig] = signal.signal(sig, _noop_handler)
+        self.mask = signal.pthread_sigmask(signal.SIG_UNBLOCK, set(_RESET) | {signal.SIGCHLD})
+        return self
+
+    def __exit__(self, *exc):
+        signal.pthread_sigmask(signal.SIG_SETMASK, self.mask)
+        for sig, old in self.saved.items():
+            signal.signal(sig, old)
+        return False
+
+
+def wait_dead(pid):
+    """Block — event-driven, no polling — until `pid` is dead (zombie), without reaping it; bounded by
+    DEATH_CAP_S.  -> waitid result."""
+    try:
+        fd = os.pidfd_open(pid)
+    except (AttributeError, OSError):
+        fd = None
+    if fd is not None:
+        try:
+            if not select.select([fd], [], [], DEATH_CAP_S)[0]:
+                raise HarnessError("released child %d still alive after %.0fs" % (pid, DEATH_CAP_S))
+        finally:
+            os.close(fd)
+    info = os.waitid(os.P_PID, pid, os.WEXITED | os.WNOWAIT | (os.WNOHANG if fd is not None else 0))
+    if info is None:
+        raise HarnessError("pidfd readable but waitid reports child %d alive" % pid)
+    return info
 
 
 class Child:
@@ -123,8 +191,8 @@ class Child:
             os.kill(self.pid, getattr(signal, "SIG" + kind[1]))
         else:
             self.sub.stdin.close()
-        # blocks until the child is a zombie; does not reap it
-        info = os.waitid(os.P_PID, self.pid, os.WEXITED | os.WNOWAIT)
+        # blocks until the child is a zombie (bounded); does not reap it
+        info = wait_dead(self.pid)
         self.dead = True
         if info.si_code == os.CLD_EXITED:
             self.truth = info.si_status
@@ -175,7 +243,7 @@ async def settle(children):
     grace = 0
     while not all(c.reported() for c in children if c.registered) and grace < GRACE_STEPS:
         grace += 1
-        await asyncio.sleep(0.02)
+        await asyncio.sleep(0.025)
     if grace:
         await spin(SETTLE_ITERS)
     return grace
@@ -219,12 +287,17 @@ def verify(ctx, c, where):
 
 async def scenario(ctx, case, out):
     children = []
+    old_mask = None
     if Subprocess._initialized:
         raise HarnessError("Subprocess left initialized by an earlier case")
     try:
         for i, spec in enumerate(case["children"]):
             children.append(Child(i, spec))
         m = len(children)
+        if case.get("coalesce"):
+            # Real coalescing: while SIGCHLD is blocked every death only sets the one pending bit, so
+            # unblocking after the program delivers exactly ONE SIGCHLD for all children that died.
+            old_mask = signal.pthread_sigmask(signal.SIG_BLOCK, {signal.SIGCHLD})
         for op, i, yields in case["program"]:
             c = children[i % m]
             if op == "register":
@@ -239,6 +312,10 @@ async def scenario(ctx, case, out):
                 c.release()
             if not c.registered:
                 c.register()
+        if old_mask is not None:
+            signal.pthread_sigmask(signal.SIG_SETMASK, old_mask)  # the single SIGCHLD is delivered here
+            old_mask = None
+        # No other SIGCHLD source exists until this clause has been evaluated (the probe comes later).
         out["grace"] = await settle(children)
         for c in children:
             verify(ctx, c, "after program")
@@ -263,6 +340,8 @@ async def scenario(ctx, case, out):
         if left:
             ctx.fail("C42.waiting_not_drained", {"pids": left})
     finally:
+        if old_mask is not None:
+            signal.pthread_sigmask(signal.SIG_SETMASK, old_mask)
         for c in children:
             c.destroy()
         Subprocess.uninitialize()
@@ -274,7 +353,8 @@ def run_case(ctx, case):
     io_loop = AsyncIOLoop(asyncio_loop=loop, make_current=False)
     out = {"grace": 0}
     try:
-        loop.run_until_complete(scenario(ctx, case, out))
+        with default_dispositions_for_children():
+            loop.run_until_complete(scenario(ctx, case, out))
     finally:
         try:
             io_loop.close(all_fds=False)
@@ -311,6 +391,11 @@ def run_case(ctx, case):
                 labels.add("coalesced_release")
         if y:
             run = 0
+    if case.get("coalesce"):
+        labels.add("sigchld_blocked")
+        n_after = sum(1 for t in timing.values() if t == "after")
+        if n_after >= 2:
+            labels.add("single_sigchld_for_ge2_registered_children")
     if case["probe"]:
         labels.add("probe_child")
     if out["grace"]:
@@ -342,7 +427,8 @@ def case_s(draw):
     ops = [("register", i) for i in range(m)] + [("release", i) for i in range(m)]
     order = draw(st.permutations(ops))
     program = [(op, i, draw(st.sampled_from([0, 0, 1, 2]))) for op, i in order]
-    return {"children": children, "program": program, "probe": draw(st.sampled_from([None, "callback", "future"]))}
+    return {"children": children, "program": program, "probe": draw(st.sampled_from([None, "callback", "future"])),
+            "coalesce": draw(st.booleans())}
 
 
 def fixed_cases():
@@ -369,6 +455,18 @@ def fixed_cases():
            "program": [("release", 0, 0), ("register", 0, 0), ("register", 1, 0), ("register", 2, 0), ("register", 3, 1),
                        ("release", 3, 0), ("release", 2, 0), ("release", 1, 0)],
            "probe": "callback"}
+
+
+    # real coalescing: SIGCHLD blocked while several registered children die, then one delivery
+    yield {"children": [ch(("status", 3), "callback"), ch(("status", 0), "future", True), ch(("signal", "TERM", "external"), "callback")],
+           "program": [("register", 0, 1), ("register", 1, 0), ("register", 2, 1), ("release", 2, 0), ("release", 0, 0),
+                       ("release", 1, 0)],
+           "probe": "callback", "coalesce": True}
+    yield {"children": [ch(("status", 9), "future", False), ch(("signal", "KILL", "self"), "future", True), ch(("status", 0), "callback"),
+                        ch(("status", 255), "callback")],
+           "program": [("release", 3, 0), ("register", 0, 0), ("register", 1, 2), ("register", 2, 0), ("release", 0, 1),
+                       ("release", 1, 0), ("release", 2, 0), ("register", 3, 0)],
+           "probe": None, "coalesce": True}
 
 
 PARTS = {"main": run_case, "fixed": run_case}
